@@ -38,7 +38,11 @@ Anc(z) == {Path(z)[i] : i \in 1..Len(Path(z))}     \* ancestors or self
 
 Four(sh) == sh \in {"secure4", "insecure4"}
 Leaf(sh) == IF Four(sh) THEN "sub" ELSE "zone"
-LeafSecure(sh) == sh \in {"secure3", "secure4"}
+LeafSecure(sh) == sh \in {"secure3", "secure4", "entapex_s", "entname_s"}
+\* shapes in which the leaf zone hangs below an empty non-terminal of tld (the
+\* ENT sorts directly after the tld apex, or after an ordinary name): the
+\* walk asks for DS at the ENT first
+EntShape(sh) == sh \in {"entapex_s", "entapex_i", "entname_s", "entname_i"}
 Signed(sh, z) == CASE z = "plain" -> FALSE
                    [] z = Leaf(sh) -> LeafSecure(sh)
                    [] OTHER -> TRUE
@@ -171,10 +175,11 @@ VARIABLES scn,      \* [shape, denial, qk]
           probes,   \* DS probes for non-apex names still to be sent
           served,   \* fetch key -> message as delivered (for the oracle)
           fetches,  \* history of fetches, in order
+          entp,     \* the ENT above the leaf zone has been looked at
           result, steps
 
 vars == <<scn, budget, advlog, pc, pend, inbox, msg, gi, gst, walk, node, tkeys,
-          dsd, ttl0, probes, served, fetches, result, steps>>
+          dsd, ttl0, probes, served, fetches, entp, result, steps>>
 
 AllZones == {"root", "tld", "zone", "sub", "other", "plain"}
 FKey(t, z) == <<t, z>>
@@ -186,7 +191,7 @@ Init ==
   /\ inbox = HonestAnswer(scn.shape, scn.denial, scn.qk)
   /\ msg = <<>> /\ gi = 1 /\ gst = <<>> /\ walk = <<>>
   /\ node = [z \in AllZones |-> "none"] /\ tkeys = [z \in AllZones |-> {}]
-  /\ dsd = <<>> /\ ttl0 = {} /\ probes = 0
+  /\ dsd = <<>> /\ ttl0 = {} /\ probes = 0 /\ entp = FALSE
   /\ served = <<>> /\ fetches = <<>> /\ result = "none" /\ steps = 0
 
 -----------------------------------------------------------------------------
@@ -207,7 +212,7 @@ CanAdv(act) == /\ pc = "wire" /\ budget > 0 /\ act \in AdvActs
 Rewrite(act, role, m) ==
   /\ inbox' = m /\ budget' = budget - 1 /\ advlog' = Log(act, role)
   /\ steps' = steps + 1
-  /\ UNCHANGED <<scn, pc, pend, msg, gi, gst, walk, node, tkeys, dsd, ttl0, probes,
+  /\ UNCHANGED <<entp, scn, pc, pend, msg, gi, gst, walk, node, tkeys, dsd, ttl0, probes,
                  served, fetches, result>>
 
 SignedRole(r) == Has(inbox, r) /\ Get(inbox, r).sigs # {}
@@ -260,6 +265,23 @@ Adv_AddBadSig ==
         /\ CanAdv("AddBadSig") /\ SignedRole("ans")
         /\ Rewrite("AddBadSig" \o (IF n = 1 THEN "1" ELSE "2") \o (IF first THEN "First" ELSE "Last"),
                    "ans", MapRole(inbox, "ans", LAMBDA g : [g EXCEPT !.bad = [n |-> n, first |-> first]]))
+
+\* NXDOMAIN / NODATA for a name below a DNAME owner or below a zone cut,
+\* "proven" with the genuine, validly signed NSEC/NSEC3 of that ancestor
+\* (bitmap DNAME; NS+DS; NS): RFC 4035 5.4 / RFC 6840 4.1 - it proves nothing
+\* about names below it
+Adv_ReplayAncestor ==
+  /\ pc = "wire"
+  /\ \E k \in {"Dname", "Cut", "CutIns"} :
+        /\ CanAdv("ReplayAncestor") /\ pend.t = "ANS" /\ scn.qk \in {"nxdomain", "nodata"}
+        /\ SignedRole("soa")
+        /\ k = "CutIns" => scn.denial # "optout"   \* not in the Opt-Out chain
+        /\ LET z == Leaf(scn.shape)
+               g == Grp("nx", "proof", z, "ancestor",
+                        [flavour |-> IF scn.denial = "nsec" THEN "nsec" ELSE "nsec3",
+                         covers |-> "ancestor", optout |-> FALSE], FALSE, 1)
+           IN Rewrite("ReplayAncestor" \o (IF scn.qk = "nxdomain" THEN "Nx" ELSE "Nd") \o k, "nx",
+                      <<Soa(scn.shape, z), [g EXCEPT !.sigs = {Sig(z, g, "ok")}]>>)
 
 \* forged data signed with the attacker's key in the zone's name (only useful
 \* together with CorruptKey on that zone's DNSKEY fetch)
@@ -345,7 +367,7 @@ Adv_CnameLoop ==
   /\ Rewrite("CnameLoop", "", LoopAnswer(scn.shape))
 
 AdvNext == \/ Adv_DropRrsig \/ Adv_DropRrset \/ Adv_ReplaceRdata \/ Adv_WrongSigner
-           \/ Adv_Expire \/ Adv_NotYetValid \/ Adv_ForgeSigned \/ Adv_AddBadSig \/ Adv_CorruptKey \/ Adv_CorruptDs
+           \/ Adv_Expire \/ Adv_NotYetValid \/ Adv_ReplayAncestor \/ Adv_ForgeSigned \/ Adv_AddBadSig \/ Adv_CorruptKey \/ Adv_CorruptDs
            \/ Adv_StripProof \/ Adv_ForgeNsecRange \/ Adv_SwapProof
            \/ Adv_BadNsec3Label \/ Adv_BadNsec3LabelSigned \/ Adv_ZeroCounts
            \/ Adv_ZeroTtl \/ Adv_Inject \/ Adv_CnameLoop
@@ -366,7 +388,7 @@ Deliver ==
   /\ IF pend.t = "ANS"
      THEN msg' = inbox /\ pc' = "group"
      ELSE msg' = msg /\ pc' = IF pend.t = "DS" THEN "vds" ELSE "vkey"
-  /\ UNCHANGED <<scn, budget, advlog, pend, inbox, gi, gst, walk, node, tkeys, dsd,
+  /\ UNCHANGED <<entp, scn, budget, advlog, pend, inbox, gi, gst, walk, node, tkeys, dsd,
                  ttl0, probes, fetches, result>>
 
 \* Group::validate_with_vc: the zone whose node decides about this group
@@ -400,7 +422,7 @@ StartGroup ==
        /\ walk' = w
        /\ probes' = IF g.sigs = {} /\ ~AtCut(g) THEN g.depth ELSE 0
        /\ pc' = IF w # <<>> THEN "walk" ELSE "probe"
-  /\ UNCHANGED <<scn, budget, advlog, pend, inbox, msg, gi, gst, node, tkeys, dsd,
+  /\ UNCHANGED <<entp, scn, budget, advlog, pend, inbox, msg, gi, gst, node, tkeys, dsd,
                  ttl0, served, fetches, result>>
 
 Issue(t, z) ==
@@ -410,15 +432,21 @@ Issue(t, z) ==
   /\ pc' = "wire"
 
 \* Node::trust_anchor / create_child_node start with a fetch
+\* RFC 5155 6: under Opt-Out an ENT that only leads to insecure delegations has
+\* no NSEC3; the covering Opt-Out record makes the ENT itself an (assumed)
+\* insecure delegation and the walk ends there
+EntStops == EntShape(scn.shape) /\ ~LeafSecure(scn.shape) /\ scn.denial = "optout"
+NeedEnt == walk # <<>> /\ Head(walk) = "zone" /\ EntShape(scn.shape) /\ ~entp
+
 FetchNext ==
-  /\ pc = "walk" /\ walk # <<>> /\ Step
+  /\ pc = "walk" /\ walk # <<>> /\ ~NeedEnt /\ Step
   /\ LET z == Head(walk) IN
        IF z # "root" /\ UsesTtl0(Parent(z))
        THEN /\ Finish("panic")
             /\ UNCHANGED <<pend, inbox, fetches>>
        ELSE /\ Issue(IF z = "root" THEN "DNSKEY" ELSE "DS", z)
             /\ UNCHANGED result
-  /\ UNCHANGED <<scn, budget, advlog, msg, gi, gst, walk, node, tkeys, dsd, ttl0,
+  /\ UNCHANGED <<entp, scn, budget, advlog, msg, gi, gst, walk, node, tkeys, dsd, ttl0,
                  probes, served>>
 
 SetNode(z, st, keys) ==
@@ -428,6 +456,18 @@ SetNode(z, st, keys) ==
              THEN ttl0 \cup {z} ELSE ttl0
   /\ walk' = IF st = "Secure" THEN Tail(walk) ELSE <<>>
   /\ pc' = IF st = "Secure" /\ Tail(walk) # <<>> THEN "walk" ELSE "probe"
+
+\* create_child_node for the empty non-terminal on the way to the leaf zone:
+\* DS query, NODATA, the NSEC (possibly the apex's own) / NSEC3 proves a
+\* secure intermediate name (nsec_for_ds / nsec3_for_ds); honest upstream
+EntProbe ==
+  /\ pc = "walk" /\ NeedEnt /\ Step
+  /\ entp' = TRUE
+  /\ fetches' = Append(fetches, [t |-> "DS", z |-> "name"])
+  /\ IF UsesTtl0("tld") THEN Finish("panic") /\ UNCHANGED <<node, tkeys, ttl0, walk>>
+     ELSE IF EntStops THEN SetNode("zone", "Insecure", {}) /\ UNCHANGED result
+     ELSE UNCHANGED <<node, tkeys, ttl0, walk, pc, result>>
+  /\ UNCHANGED <<scn, budget, advlog, pend, inbox, msg, gi, gst, dsd, probes, served>>
 
 \* DNSKEY RRset arrived: trust anchor (root) or DS-committed key (child)
 VerifyKey ==
@@ -441,7 +481,7 @@ VerifyKey ==
                     /\ ~TooManyBad(g)
      IN IF ok THEN SetNode(z, "Secure", Get(inbox, "ans").rdata)
         ELSE SetNode(z, "Bogus", {})
-  /\ UNCHANGED <<scn, budget, advlog, pend, inbox, msg, gi, gst, dsd, probes, served,
+  /\ UNCHANGED <<entp, scn, budget, advlog, pend, inbox, msg, gi, gst, dsd, probes, served,
                  fetches, result>>
 
 ProofGood(g, z, keys) ==   \* validly signed by zone z, and it proves what is needed
@@ -473,7 +513,7 @@ VerifyDs ==
                    /\ Get(inbox, "nx").prf.optout
           IN /\ SetNode(z, IF insecure THEN "Insecure" ELSE "Bogus", {})
              /\ UNCHANGED <<dsd, pend, inbox, fetches, result>>
-  /\ UNCHANGED <<scn, budget, advlog, msg, gi, gst, probes, served>>
+  /\ UNCHANGED <<entp, scn, budget, advlog, msg, gi, gst, probes, served>>
 
 \* an unsigned RRset below a Secure zone: get_node walks to the owner name
 \* with DS queries for the non-apex names (never an adversary target here)
@@ -485,7 +525,7 @@ Probe ==
           /\ fetches' = Append(fetches, [t |-> "DS", z |-> "name"])
           /\ pc' = "probe"
      ELSE /\ probes' = 0 /\ fetches' = fetches /\ pc' = "check"
-  /\ UNCHANGED <<scn, budget, advlog, pend, inbox, msg, gi, gst, walk, node, tkeys, dsd,
+  /\ UNCHANGED <<entp, scn, budget, advlog, pend, inbox, msg, gi, gst, walk, node, tkeys, dsd,
                  ttl0, served, result>>
 
 \* RFC 5155 section 6: an Opt-Out NSEC3 does not assert the (non)existence of
@@ -513,7 +553,7 @@ CheckGroup ==
      THEN Finish("Bogus") /\ UNCHANGED <<gst, gi>>
      ELSE /\ gst' = Append(gst, st) /\ gi' = gi + 1 /\ pc' = "group"
           /\ UNCHANGED result
-  /\ UNCHANGED <<scn, budget, advlog, pend, inbox, msg, walk, node, tkeys, dsd, ttl0,
+  /\ UNCHANGED <<entp, scn, budget, advlog, pend, inbox, msg, walk, node, tkeys, dsd, ttl0,
                  probes, served, fetches>>
 
 \* --- classification of the validated answer (validate_msg after the groups) ---
@@ -577,12 +617,12 @@ Judge ==
   /\ pc = "group" /\ gi > Len(msg) /\ Step
   /\ IF BadLabelSeen /\ "D_nsec3_label_expect" \in Dev
      THEN Finish("panic") ELSE Finish(Verdict)
-  /\ UNCHANGED <<scn, budget, advlog, pend, inbox, msg, gi, gst, walk, node, tkeys, dsd,
+  /\ UNCHANGED <<entp, scn, budget, advlog, pend, inbox, msg, gi, gst, walk, node, tkeys, dsd,
                  ttl0, probes, served, fetches>>
 
 Done == pc = "done" /\ UNCHANGED vars
 
-ValNext == Deliver \/ StartGroup \/ FetchNext \/ VerifyKey \/ VerifyDs \/ Probe
+ValNext == Deliver \/ StartGroup \/ EntProbe \/ FetchNext \/ VerifyKey \/ VerifyDs \/ Probe
            \/ CheckGroup \/ Judge
 Next == AdvNext \/ ValNext \/ Done
 Spec == Init /\ [][Next]_vars /\ WF_vars(ValNext)
@@ -606,6 +646,7 @@ ChainO(z) ==
        THEN "Secure" ELSE "Bogus"
   ELSE LET p == Parent(z) cp == ChainO(p) IN
        IF cp # "Secure" THEN cp
+       ELSE IF z = "zone" /\ EntStops THEN "Insecure"   \* the ENT is inside an Opt-Out span
        ELSE IF ~Served("DS", z) THEN "Bogus"
        ELSE LET m == ServedMsg("DS", z) kp == KeysO(p) IN
             IF Has(m, "ans") /\ Get(m, "ans").kind = "ds"
